@@ -17,8 +17,11 @@ class ModuleSrc:
     def __init__(self, modname: str, path: str):
         self.modname = modname
         self.path = path
-        with open(path, "r", encoding="utf-8") as f:
-            self.text = f.read()
+        if path in OVERRIDES:
+            self.text = OVERRIDES[path]       # in-memory mutant of the real text (self-test only)
+        else:
+            with open(path, "r", encoding="utf-8") as f:
+                self.text = f.read()
         self.tree = ast.parse(self.text, filename=path)
         self.funcs: dict[str, ast.AST] = {}      # qualname -> FunctionDef/AsyncFunctionDef
         self.classes: dict[str, ast.ClassDef] = {}
@@ -46,6 +49,17 @@ class ModuleSrc:
 
 
 _MODS: dict[str, ModuleSrc] = {}
+OVERRIDES: dict[str, str] = {}
+
+
+def set_override(path: str, text: str | None):
+    """Replace (or restore, text=None) the text of one source file in memory and drop cached ASTs."""
+    if text is None:
+        OVERRIDES.pop(path, None)
+    else:
+        OVERRIDES[path] = text
+    _MODS.clear()
+
 _EXTRA_ROOTS: dict[str, str] = {}   # top-level package name -> directory containing it
 
 
